@@ -49,6 +49,13 @@ Sq(a, b, d, ccw) == IF ccw THEN << <<a, b>>, <<a + d, b>>, <<a + d, b + d>>, <<a
 HoledMulti == {pp \in { << <<s, Sq(t[1], t[2], 4, t[3])>>, <<Sq(t[1] + 1, t[2] + 1, 2, t[4])>> >> :
                           s \in Shells, t \in Inner \X Inner \X BOOLEAN \X BOOLEAN } : ValidPolygon(pp[1])}
 
+(* ---- families for the measures (C13 - C15): non-finite coordinates, degenerate and arbitrary rings ---- *)
+VertsX == Verts \cup {<<NaN, NaN>>, <<0, NaN>>, <<PInf, 2>>}
+AnyRings == {CloseRing(vs) : vs \in UNION {[1..k -> Verts] : k \in 1..3}} \cup {<<>>}
+            \cup {<<v>> : v \in {<<0, 0>>, <<2, 4>>}} \cup { << <<0, 0>>, <<4, 2>> >> }
+InnerAny == {CloseRing(vs) : vs \in [1..3 -> Inner \X Inner]}
+Quad4 == {CloseRing(vs) : vs \in {w \in [1..4 -> Verts] : w[1] = <<0, 0>> /\ w[3] = <<4, 4>>}}
+
 Elements ==
     CASE Fam = "point"      -> {<<"point", El(<< << <<v>> >> >>)>> : v \in Verts \cup {<<NaN, NaN>>}} \cup {<<"point", NULL>>}
       [] Fam = "multipoint" -> {<<"multipoint", El(<< <<vs>> >>)>> : vs \in VSeqs(2)} \cup {<<"multipoint", NULL>>}
@@ -61,6 +68,18 @@ Elements ==
       [] Fam = "holed"      -> {<<"polygon", El(<<p>>)>> : p \in Holed1 \cup Holed2}
       [] Fam = "multipolygon" -> {<<"multipolygon", El(pp)>> : pp \in PolyPairs}
                                \cup {<<"multipolygon", El(<<>>)>>, <<"multipolygon", NULL>>}
+      [] Fam = "mpoints"    -> {<<"multipoint", El(<< <<vs>> >>)>> : vs \in UNION {[1..k -> VertsX] : k \in 0..2}}
+                               \cup {<<"point", El(<< << <<v>> >> >>)>> : v \in VertsX} \cup {<<"point", NULL>>, <<"multipoint", NULL>>}
+      [] Fam = "mlines"     -> {<<"line", El(<< <<vs>> >>)>> : vs \in UNION {[1..k -> VertsX] : k \in 0..3}} \cup {<<"line", NULL>>}
+      [] Fam = "mmultilines" -> {<<"multiline", El(<< <<a, b>> >>)>> : a \in [1..2 -> VertsX], b \in UNION {[1..k -> Verts] : k \in 0..2}}
+                               \cup {<<"multiline", El(<< <<>> >>)>>, <<"multiline", NULL>>}
+      [] Fam = "mrings"     -> {<<"polygon", El(<< <<r>> >>)>> : r \in AnyRings \cup Quad4}
+                               \cup {<<"polygon", El(<< <<>> >>)>>, <<"polygon", NULL>>}
+      [] Fam = "mpoly2"     -> {<<"polygon", El(<< <<s, h>> >>)>> : s \in Shells, h \in InnerAny \cup InnerSquares}
+      [] Fam = "mpoly3"     -> {<<"polygon", El(<< <<s, h1, h2>> >>)>> : s \in Shells, h1 \in InnerSquares, h2 \in InnerSquares}
+      [] Fam = "mmulti"     -> {<<"multipolygon", El(<< <<a>>, <<b>> >>)>> : a \in {r \in AnyRings : Len(r) = 4 /\ r[1] = <<0, 0>>}, b \in AnyRings}
+                               \cup {<<"multipolygon", El(<<>>)>>, <<"multipolygon", El(<< <<>> >>)>>, <<"multipolygon", NULL>>}
+      [] Fam = "mmulti2"    -> {<<"multipolygon", El(<< <<s, h>>, <<h2>> >>)>> : s \in Shells, h \in InnerSquares, h2 \in InnerSquares}
       [] Fam = "multipolyvalid" -> {<<"multipolygon", El(pp)>> : pp \in ValidPairs}
                                \cup {<<"multipolygon", El(<<>>)>>, <<"multipolygon", NULL>>}
       [] Fam = "holedmulti" -> {<<"multipolygon", El(pp)>> : pp \in HoledMulti}
